@@ -242,6 +242,69 @@ Proof.
   repeat split; try assumption. rewrite Ec. apply Hdev_ext; assumption.
 Qed.
 
+(* ---------- two lists of Input messages that agree as dictionaries have the same effect *)
+Definition KREL (lA lB : list (comp * changes)) : Prop :=
+  forall c, match lookup c lA, lookup c lB with
+            | Some x, Some y => NoDup (keys x) /\ NoDup (keys y) /\ eqv x y
+            | None, None => True
+            | _, _ => False
+            end.
+
+Lemma apply_upds_rel t sA sB lA lB sA' oA sB' oB :
+  SREL sA sB -> NoDup (keys lA) -> NoDup (keys lB) -> KREL lA lB ->
+  fold_left (apply_upd devf t) lA (sA, []) = (sA', oA) -> fold_left (apply_upd devf t) lB (sB, []) = (sB', oB) ->
+  SREL sA' sB' /\ forall d, obs_rel (dev_obs d oA) (dev_obs d oB).
+Proof.
+  intros [Hd Hw] NA NB K EA EB.
+  pose proof (apply_upds_spec t lA sA [] NA) as SA. pose proof (apply_upds_spec t lB sB [] NB) as SB.
+  cbv zeta in SA, SB. rewrite EA in SA. rewrite EB in SB. cbn [fst snd app] in SA, SB.
+  destruct SA as [PA [WA OA]]. destruct SB as [PB [WB OB]].
+  split; [split|].
+  - intros c. specialize (K c). specialize (PA c). specialize (PB c).
+    destruct (lookup c lA) as [x|], (lookup c lB) as [y|]; try contradiction.
+    + destruct K as [Hx [Hy Hxy]]. destruct (local_rel sA sB c t x y (Hd c) Hx Hy Hxy) as [Ec [Hm [N1 [N2 Ef]]]].
+      destruct PA as [A1 [A2 _]]. destruct PB as [B1 [B2 _]]. unfold drel. rewrite A1, B1, A2, B2. cbn [d_last d_inputs]. rewrite Ef, Ec.
+      repeat split; assumption.
+    + destruct PA as [A1 [A2 _]]. destruct PB as [B1 [B2 _]]. unfold drel. rewrite A1, B1, A2, B2. apply Hd.
+  - destruct Hw as [Hna [Hnb Hlk]]. split; [apply WA; exact Hna|]. split; [apply WB; exact Hnb|].
+    intros c. specialize (K c). specialize (PA c). specialize (PB c).
+    destruct (lookup c lA) as [x|], (lookup c lB) as [y|]; try contradiction.
+    + destruct K as [Hx [Hy Hxy]]. destruct (local_rel sA sB c t x y (Hd c) Hx Hy Hxy) as [Ec [Hm [N1 [N2 Ef]]]].
+      destruct PA as [_ [_ A3]]. destruct PB as [_ [_ B3]]. rewrite A3, B3, Ef, (Hlk c). reflexivity.
+    + destruct PA as [_ [_ A3]]. destruct PB as [_ [_ B3]]. rewrite A3, B3. apply Hlk.
+  - intros d. rewrite OA, OB. rewrite !(dev_obs_upds d t (fun c chg => inp _ c chg)) by assumption.
+    specialize (K d). destruct (lookup d lA) as [x|], (lookup d lB) as [y|]; try contradiction; [|constructor].
+    destruct K as [Hx [Hy Hxy]]. destruct (local_rel sA sB d t x y (Hd d) Hx Hy Hxy) as [_ [Hm _]].
+    constructor; [|constructor]. split; [reflexivity | exact Hm].
+Qed.
+
+(* two traces whose dispatches agree update the same components with equivalent changes *)
+Lemma KREL_of_traces trA trB :
+  NoDup (keys (upds trA)) -> NoDup (keys (upds trB)) ->
+  (forall a1 a2, In (EDispatch a1) trA -> In (EDispatch a2) trB -> act_comp a1 = act_comp a2 -> action_equiv a1 a2) ->
+  (forall c, dispatched trA c <-> dispatched trB c) ->
+  (forall a, In (EDispatch a) trA -> nd_action a) -> (forall a, In (EDispatch a) trB -> nd_action a) ->
+  KREL (upds trA) (upds trB).
+Proof.
+  intros NA NB C2 P2 DA DB.
+  assert (K1 : forall c x, lookup c (upds trA) = Some x -> exists y, lookup c (upds trB) = Some y /\ NoDup (keys x) /\ NoDup (keys y) /\ eqv x y).
+  { intros c x E. apply (lookup_In_iff _ c x NA) in E. apply upds_in in E. destruct E as [t' E].
+    assert (Hdisp : dispatched trB c) by (apply P2; exists (Upd c t' x); split; [exact E | reflexivity]).
+    destruct Hdisp as [aB [HaB HcB]]. pose proof (C2 (Upd c t' x) aB E HaB (eq_sym HcB)) as Q.
+    destruct aB as [c2 t2 y|c2 t2]; [|destruct Q]. destruct Q as [Ec [_ Q]]. subst c2.
+    exists y. split; [apply (lookup_In_iff _ c y NB); apply upds_in; exists t2; exact HaB|].
+    split; [exact (DA _ E)|]. split; [exact (DB _ HaB) | exact Q]. }
+  assert (K2 : forall c y, lookup c (upds trB) = Some y -> exists x, lookup c (upds trA) = Some x).
+  { intros c y E. apply (lookup_In_iff _ c y NB) in E. apply upds_in in E. destruct E as [t' E].
+    assert (Hdisp : dispatched trA c) by (apply P2; exists (Upd c t' y); split; [exact E | reflexivity]).
+    destruct Hdisp as [aA [HaA HcA]]. pose proof (C2 aA (Upd c t' y) HaA E HcA) as Q.
+    destruct aA as [c2 t2 x|c2 t2]; [|destruct Q]. destruct Q as [Ec _]. subst c2.
+    exists x. apply (lookup_In_iff _ c x NA). apply upds_in. exists t2. exact HaA. }
+  intros c. destruct (lookup c (upds trA)) as [x|] eqn:EAc.
+  - destruct (K1 c x EAc) as [y [Ey Q]]. rewrite Ey. exact Q.
+  - destruct (lookup c (upds trB)) as [y|] eqn:EBc; [|exact I]. destruct (K2 c y EBc) as [x Ex]. congruence.
+Qed.
+
 (* ---------- one tick under two schedules *)
 Hypothesis Hss : single_source conns.
 Variable rank : comp -> nat.
@@ -252,58 +315,18 @@ Lemma ntick_confluent sA sB t rA rB sA' oA sB' oB :
   ntick sA t rA sA' oA -> ntick sB t rB sB' oB ->
   SREL sA' sB' /\ forall d, obs_rel (dev_obs d oA) (dev_obs d oB).
 Proof.
-  intros [Hd Hw] Hr [extA [stA [trA [RA [FA [BA EA]]]]]] [extB [stB [trB [RB [FB [BB EB]]]]]].
+  intros HS Hr [extA [stA [trA [RA [FA [BA EA]]]]]] [extB [stB [trB [RB [FB [BB EB]]]]]].
   assert (NA : NoDup (keys (upds trA))) by (apply upds_nodup; apply (run_once conns comps t rA extA stA trA RA)).
   assert (NB : NoDup (keys (upds trB))) by (apply upds_nodup; apply (run_once conns comps t rB extB stB trB RB)).
-  pose proof (apply_upds_spec t (upds trA) sA [] NA) as SA. pose proof (apply_upds_spec t (upds trB) sB [] NB) as SB.
-  cbv zeta in SA, SB. rewrite EA in SA. rewrite EB in SB. cbn [fst snd app] in SA, SB.
-  destruct SA as [PA [WA OA]]. destruct SB as [PB [WB OB]].
   assert (Dext : forall c x y, NoDup (keys x) -> NoDup (keys y) -> ch_equiv x y -> dev_of devf sA t c x = dev_of devf sB t c y)
-    by (intros c x y Hx Hy Hxy; apply dev_of_ext; [apply Hd | exact Hx | exact Hy | exact Hxy]).
-  pose proof (confluent2 conns comps t Hss rank Hrank rA rB Hr (dev_of devf sA t) (dev_of devf sB t) Dext (dev_of_wf sA t) (dev_of_wf sB t)
-                extA stA trA extB stB trB RA RB BA BB) as C2.
-  pose proof (same_participants2 conns comps t rA rB Hr extA stA trA extB stB trB RA RB FA FB) as P2.
-  pose proof (run_dispatch_nd conns comps t rA extA stA trA RA) as DA.
-  pose proof (run_dispatch_nd conns comps t rB extB stB trB RB) as DB.
-  (* the same components are updated, with equivalent changes *)
-  assert (K : forall c, match lookup c (upds trA), lookup c (upds trB) with
-                        | Some x, Some y => NoDup (keys x) /\ NoDup (keys y) /\ eqv x y
-                        | None, None => True
-                        | _, _ => False
-                        end).
-  { assert (K1 : forall c x, lookup c (upds trA) = Some x -> exists y, lookup c (upds trB) = Some y /\ NoDup (keys x) /\ NoDup (keys y) /\ eqv x y).
-    { intros c x E. apply (lookup_In_iff _ c x NA) in E. apply upds_in in E. destruct E as [t' E].
-      assert (Hdisp : dispatched trB c) by (apply P2; exists (Upd c t' x); split; [exact E | reflexivity]).
-      destruct Hdisp as [aB [HaB HcB]]. pose proof (C2 (Upd c t' x) aB E HaB (eq_sym HcB)) as Q.
-      destruct aB as [c2 t2 y|c2 t2]; [|destruct Q]. destruct Q as [Ec [_ Q]]. subst c2.
-      exists y. split; [apply (lookup_In_iff _ c y NB); apply upds_in; exists t2; exact HaB|].
-      split; [exact (DA _ E)|]. split; [exact (DB _ HaB) | exact Q]. }
-    assert (K2 : forall c y, lookup c (upds trB) = Some y -> exists x, lookup c (upds trA) = Some x).
-    { intros c y E. apply (lookup_In_iff _ c y NB) in E. apply upds_in in E. destruct E as [t' E].
-      assert (Hdisp : dispatched trA c) by (apply P2; exists (Upd c t' y); split; [exact E | reflexivity]).
-      destruct Hdisp as [aA [HaA HcA]]. pose proof (C2 aA (Upd c t' y) HaA E HcA) as Q.
-      destruct aA as [c2 t2 x|c2 t2]; [|destruct Q]. destruct Q as [Ec _]. subst c2.
-      exists x. apply (lookup_In_iff _ c x NA). apply upds_in. exists t2. exact HaA. }
-    intros c. destruct (lookup c (upds trA)) as [x|] eqn:EAc.
-    - destruct (K1 c x EAc) as [y [Ey Q]]. rewrite Ey. exact Q.
-    - destruct (lookup c (upds trB)) as [y|] eqn:EBc; [|exact I]. destruct (K2 c y EBc) as [x Ex]. congruence. }
-  split; [split|].
-  - intros c. specialize (K c). specialize (PA c). specialize (PB c).
-    destruct (lookup c (upds trA)) as [x|], (lookup c (upds trB)) as [y|]; try contradiction.
-    + destruct K as [Hx [Hy Hxy]]. destruct (local_rel sA sB c t x y (Hd c) Hx Hy Hxy) as [Ec [Hm [N1 [N2 Ef]]]].
-      destruct PA as [A1 [A2 _]]. destruct PB as [B1 [B2 _]]. unfold drel. rewrite A1, B1, A2, B2. cbn [d_last d_inputs]. rewrite Ef, Ec.
-      repeat split; assumption.
-    + destruct PA as [A1 [A2 _]]. destruct PB as [B1 [B2 _]]. unfold drel. rewrite A1, B1, A2, B2. apply Hd.
-  - destruct Hw as [Hna [Hnb Hlk]]. split; [apply WA; exact Hna|]. split; [apply WB; exact Hnb|].
-    intros c. specialize (K c). specialize (PA c). specialize (PB c).
-    destruct (lookup c (upds trA)) as [x|], (lookup c (upds trB)) as [y|]; try contradiction.
-    + destruct K as [Hx [Hy Hxy]]. destruct (local_rel sA sB c t x y (Hd c) Hx Hy Hxy) as [Ec [Hm [N1 [N2 Ef]]]].
-      destruct PA as [_ [_ A3]]. destruct PB as [_ [_ B3]]. rewrite A3, B3, Ef, (Hlk c). reflexivity.
-    + destruct PA as [_ [_ A3]]. destruct PB as [_ [_ B3]]. rewrite A3, B3. apply Hlk.
-  - intros d. rewrite OA, OB. rewrite !(dev_obs_upds d t (fun c chg => inp _ c chg)) by assumption.
-    specialize (K d). destruct (lookup d (upds trA)) as [x|], (lookup d (upds trB)) as [y|]; try contradiction; [|constructor].
-    destruct K as [Hx [Hy Hxy]]. destruct (local_rel sA sB d t x y (Hd d) Hx Hy Hxy) as [_ [Hm _]].
-    constructor; [|constructor]. split; [reflexivity | exact Hm].
+    by (intros c x y Hx Hy Hxy; apply dev_of_ext; [apply (proj1 HS) | exact Hx | exact Hy | exact Hxy]).
+  apply (apply_upds_rel t sA sB (upds trA) (upds trB) sA' oA sB' oB HS NA NB); [|exact EA | exact EB].
+  apply KREL_of_traces; try assumption.
+  - exact (confluent2 conns comps t Hss rank Hrank rA rB Hr (dev_of devf sA t) (dev_of devf sB t) Dext (dev_of_wf sA t) (dev_of_wf sB t)
+             extA stA trA extB stB trB RA RB BA BB).
+  - exact (same_participants2 conns comps t rA rB Hr extA stA trA extB stB trB RA RB FA FB).
+  - exact (run_dispatch_nd conns comps t rA extA stA trA RA).
+  - exact (run_dispatch_nd conns comps t rB extB stB trB RB).
 Qed.
 
 (* ---------- whole runs *)
